@@ -112,6 +112,18 @@ class StateScenario(Scenario):
                 for i, node in enumerate(values.all_leaf_nodes(sd)):
                     if node["kind"] not in ("virtual", "method") and erng.random() < 0.4:
                         node.setdefault("o", {})["env"] = erng.choice([True, "SIMVAR_%d" % i])
+        if self.prop == "C06":
+            # item schemas / config types that can reject an item *as a whole* although each of its values is acceptable:
+            # a schema validator that refuses the integer 13, or a required field without a default
+            irng = stream(seed, "c06-items")
+            for name, node in sorted(list(sd.get("shared", {}).items()) + [(n, t["schema"]) for n, t in sd.get("types", {}).items()]):
+                if irng.random() < 0.5:
+                    keys = {f["key"] for f in node["fields"]}
+                    if not any(f["kind"] == "int" and not f.get("validator") and not f.get("o", {}).get("min") for f in node["fields"]) and "iv" not in keys:
+                        node["fields"].append({"kind": "int", "key": "iv", "o": {}})
+                    node["validators"] = ["pred"]
+                elif irng.random() < 0.4 and "rq" not in {f["key"] for f in node["fields"]}:
+                    node["fields"].append({"kind": "string", "key": "rq", "o": {"required": True}})
         p_inv = {"C01": 0.35, "C06": 0.6, "C12": 0.3, "C15": 0.7}.get(self.prop, 0.4)
         return {"sd": sd, "ncfg": rng.choice([1, 1, 2]), "weights": self.weights(rng),
                 "p_invalid": rng.choice([p_inv, p_inv, 0.15]), "p_fault": rng.choice([0.0, 0.1, 0.3]),
@@ -522,14 +534,14 @@ class StateScenario(Scenario):
         n = len(t.value)
         name = rng.choice(["append", "append", "insert", "setitem", "extend", "slice_set", "iadd", "pop", "clear", "reverse",
                            "delitem", "imul", "remove_first"])
-        if schema.is_cfg_node(item) and rng.random() < 0.35:
+        if schema.is_cfg_node(item) and rng.random() < (0.6 if self.prop == "C06" else 0.35):
             name = "setitem" if n and rng.random() < 0.6 else "append"
 
         def one():
             if schema.is_cfg_node(item):
                 inode = schema.sub_schema_node(st.sd, item)
                 tree = ops.gen_tree(rng, st.sd, inode, st.ctx, p_key=0.6)
-                if rng.random() < st.h["p_invalid"]:
+                if rng.random() < (max(st.h["p_invalid"], 0.5) if self.prop == "C06" and t.value else st.h["p_invalid"]):
                     r = rng.random()
                     if r < 0.25:
                         return {"$raw": enc(rng.choice(["scalar", 5, None, [1]]))}
@@ -1395,6 +1407,8 @@ class StateScenario(Scenario):
             rec.relevant += 1
             if err is not None:
                 rec.probe("list-single-rejected")
+                if "v" in op and isinstance(op["v"], dict) and op["v"].get("validate") is False:
+                    rec.probe("list-item-rejected-as-a-whole:" + name)
                 self.check_unchanged(st, rec, s0, cfg, route, item["kind"])
             else:
                 rec.probe("list-single-accepted")
